@@ -36,7 +36,7 @@ kinds={"SCHED":("vsched/","cooperative scheduler + stateless DFS explorer over i
        "SEQ":("harness/","bounded-exhaustive sequence/input enumeration on the instrumented build against reference models"),
        "CRASH":("harness/","SCHED + in-memory FS with mutation log: every crash prefix and torn tail recovered with the real Open")}
 m={"version":1,"setup_cmd":"bin/setup",
- "hooks":{"guard":"verif","enable":"no source hooks in /repo: bin/check rewrites the working tree into a go build -overlay (sync, sync/atomic, chan/select/go, os, time, context, math/rand, s2.NewReader -> shims) and adds inject/*.go with -tags verif","baseline_off_cmd":"cd /repo && GOFLAGS=-mod=mod GOPROXY=off go test -vet=off -count=1 ./...","source_commits":[],"add_only":True},
+ "hooks":{"guard":"verif","enable":"no source hooks in /repo: bin/check rewrites the working tree into a go build -overlay (sync, sync/atomic, chan/select/go, os, path/filepath, io/ioutil, time, context, math/rand, runtime.Gosched, map range order, s2.NewReader/NewWriter -> shims) and adds inject/*.go with -tags verif","baseline_off_cmd":"cd /repo && GOFLAGS=-mod=mod GOPROXY=off go test -vet=off -count=1 ./...","source_commits":[],"add_only":True},
  "engines":[{"name":k,"path":kinds[k][0],"serves_properties":sorted(v),"kind_free_text":kinds[k][1]} for k,v in sorted(eng.items())],
  "checks":checks,"not_applicable":na,
  "notes":"bin/check <ID> <tier> instruments /repo's working tree on every invocation; VERIF_REPO=<dir> points it at another checkout. known_findings.json lists fixed defects (fix: commits in /repo) and known findings."}
